@@ -209,7 +209,7 @@ ADDENDA = {
                      "2 ms is taken to be blocked in Next's select.",
                 technique="TLA+ specs (Coalesce, CoalesceChan incl. liveness + mutants) exhaustive TLC; trace validation of sequential runs and linearizability-style validation of concurrent histories "
                           "(CoalesceLin), incl. bounded exhaustive schedule enumeration on the real queue (gate scheduler)"),
-    "C12": dict(text=" Every notification vector is followed by a full query and a later wildcard delete (the delete notifications are built from whatever the vector stored); every subscribe-request vector "
+    "C12": dict(text=" The history stage also owns the last clause: a data call the cache refuses (error class as the model expects) after which the stored content differs from what Cache.tla prescribes is a violation of C12. Every notification vector is followed by a full query and a later wildcard delete (the delete notifications are built from whatever the vector stored); every subscribe-request vector "
                      "is run against a server with and without statistics."),
     "C13": dict(text=" Also scripted: responses with nothing in them as first message of a stream, the collector's Reconnect RPC (collector.Server in front of Manager.Reconnect), and a back-off observation (with a retry delay of an hour no further attempt within 1.5 s of the first failure). Manager.tla now has incarnations (Add of the same name after or, for the mutant, during a Remove; invariant OneLife; 4 mutants). The driver has a second controller goroutine racing Add "
                      "against Remove, slow callbacks, and per-target receive-timeout overrides (with and without a manager-wide default); ManagerTrace accepts concurrent calls, infers where the old "
